@@ -35,7 +35,8 @@ def make_cases(rng, tier):
                 for k in range(rng.randint(0, 2)):
                     prelude.append(("p%d" % k, None, 50 + k, block([assign(("var", "q"), "=", ("math", mint(k)))])))
                 names = {d["name"] for d in inj}
-                c = make_case(cid, body, [d for d in base if d["name"] not in names] + inj, rng=rng, fancy=True, prelude=prelude, sal=1, multiline=rng.random() < 0.6)
+                hx = [inj_struct("h")] if pos in c09.NEEDS_H and "h" not in names else []
+                c = make_case(cid, body, [d for d in base if d["name"] not in names] + hx + inj, rng=rng, fancy=True, prelude=prelude, sal=1, multiline=rng.random() < 0.6)
                 c["fault"], c["position"] = name, pos
                 cases.append(c); cid += 1
     return cases
@@ -47,7 +48,7 @@ def nontrivial(c, o):
     return (c.get("fault"), c.get("position"), o["cites"][0][0])
 
 
-RULE = ("single-fault programs: 31 fault classes x 21 construct positions (as C09, incl. conc blocks nested in for / if / else) printed under random layouts — random indentation, tabs, blank lines, comment lines, line breaks in the middle of constructs (60 % of the texts), the faulty arithmetic inside brackets (40 %), 0-4 filler statements before the fault, 0-2 other rules "
+RULE = ("single-fault programs: 31 fault classes x 24 construct positions (as C09, incl. conc blocks nested in for / if / else and blocks made of calls of one kind) printed under random layouts — random indentation, tabs, blank lines, comment lines, line breaks in the middle of constructs (60 % of the texts), the faulty arithmetic inside brackets (40 %), 0-4 filler statements before the fault, 0-2 other rules "
         "before the faulty rule in the same text — so that the faulty construct lands on an arbitrary line; compared: every (line, column) cited by the error text (regex `line N, column M`) with the citation list of the model, whose node "
         "positions are those the printer assigned to first tokens, and every node position in the listener-built tree with the printer's; distinct non-trivial = distinct (fault class, position, cited line) with at least one citation")
 
